@@ -6,6 +6,9 @@ mod engine;
 mod pooldrv;
 mod poolsys;
 mod c03_c04_c06;
+mod c15;
+mod chainsys;
+mod c07_c08_c18;
 
 use common::Tier;
 
@@ -30,6 +33,10 @@ fn main() {
         "C03" => c03_c04_c06::run_c03(tier),
         "C04" => c03_c04_c06::run_c04(tier),
         "C06" => c03_c04_c06::run_c06(tier),
+        "C15" => c15::run(tier),
+        "C07" => c07_c08_c18::run_c07(tier),
+        "C08" => c07_c08_c18::run_c08(tier),
+        "C18" => c07_c08_c18::run_c18(tier),
         other => {
             eprintln!("unknown property {other}");
             2
